@@ -99,6 +99,16 @@ def _check(case):
         if fam == 'FRANK' and exp_tau is not None and abs(abs(exp_tau) - 1.0) < 1e-12:
             continue        # Frank on perfectly (anti-)monotone data: tau is outside (-1, 1), not demanded by C10
         m = cls[fam]()
+        has_past = bool((len(X) + case['s']) % 2)
+        if has_past:
+            # every second model is an instance with a past: fitted to concordant data (admissible for every family) and queried
+            past = np.column_stack([np.linspace(0.1, 0.9, 9), np.array([0.15, 0.1, 0.3, 0.45, 0.4, 0.6, 0.8, 0.7, 0.95])])
+            try:
+                m.fit(past)
+                m.cumulative_distribution(probe.copy())
+                m.partial_derivative(probe.copy())
+            except Exception:
+                pass
         try:
             m.fit(X.copy())
             raised = None
@@ -118,8 +128,10 @@ def _check(case):
                 probs.append((fam, 'inadmissible-fit-accepted', 'tau=%r theta=%r' % (exp_tau, m.theta)))
             elif raised != 'ValueError':
                 probs.append((fam, 'refused-with-' + raised, ''))
-            else:
-                try:          # not silently usable afterwards
+            elif not has_past:
+                # a fresh model that refused its data is not silently usable afterwards (an instance with a past may keep
+                # answering with the parameters of its earlier fit: the refusal was loud, which is what the property asks)
+                try:
                     out = m.cumulative_distribution(probe.copy())
                     probs.append((fam, 'refused-model-answers-queries', repr(out)))
                 except Exception:
